@@ -1,6 +1,7 @@
 """Configuration of ./check C17 (see pylib/props.py)."""
 CFG = dict(
-        coq=["props/C17.vo"],
+        coq=["props/C17.vo", "props/Compose2.vo"],
+        compose=['Compose_codec_'],
         tie=["gen/Tie_C17.vo", "gen/Tie_Code_Validate.vo"],
         model_vo=["model/DecRun.vo"],
         extract="Ex_C17",
